@@ -1,7 +1,7 @@
 #!/bin/bash
 # usage: tools/coverage.sh [tier]   - which lines of /repo/src the correspondence runs of all 16 checks execute.
 # Builds an instrumented copy of the harness with the nightly toolchain (its llvm-tools match its rustc), runs every
-# generator of the given tier (default quick) and writes evidence/coverage_<tier>.json + .cache/cov/uncovered.txt.
+# generator of the given tier (default quick) and writes coverage/coverage_<tier>.json + .cache/cov/uncovered.txt.
 # A measurement of generator reach (where a change could hide from the correspondence run), not a check.
 set -e
 cd "$(dirname "$0")/.."
@@ -43,8 +43,8 @@ for f in sorted(files):
     out["files"][f] = {"instrumented_lines": t, "executed": c, "not_executed": miss}
     for n in miss: unc.append("%s:%d: %s" % (f, n, src[n - 1].strip()[:110]))
 out["instrumented_lines"] = tot; out["executed"] = cov
-os.makedirs("evidence", exist_ok=True)
-json.dump(out, open("evidence/coverage_%s.json" % tier, "w"), indent=1)
+os.makedirs("coverage", exist_ok=True)
+json.dump(out, open("coverage/coverage_%s.json" % tier, "w"), indent=1)
 open(os.path.join(os.path.dirname(lcov), "uncovered.txt"), "w").write("\n".join(unc) + "\n")
 print("coverage of /repo/src by the correspondence runs (%s tier): %d of %d instrumented lines" % (tier, cov, tot))
 for f, d in out["files"].items(): print("  %-40s %4d / %4d" % (f, d["executed"], d["instrumented_lines"]))
